@@ -105,7 +105,9 @@ func quoteEval(op string, a []string) string {
 	panic("bad op")
 }
 
-var nastyPieces = []string{"a", "b c", "'", "\"", "$HOME", "$(echo x)", "`id`", "\\", "\n", "*", "?", "[a]", ";", "&", "|", ">", "~", "!", "#", "{x,y}", "é", "  ", "\t", "''", "'\\''", "-n", "%s", "="}
+var nastyPieces = []string{"a", "b c", "'", "\"", "$HOME", "$(echo x)", "`id`", "\\", "\n", "*", "?", "[a]", ";", "&", "|", ">", "~", "!", "#", "{x,y}", "é", "  ", "\t", "''", "'\\''", "-n", "%s", "=",
+	// text that looks like a placeholder: it is data, and stays data after the expansion
+	"{}", "{+}", "{1}", "{q}", "{n}", "\\{}", "{+1}", "{f}"}
 
 func nastyString(r *rand.Rand) string {
 	var sb strings.Builder
